@@ -85,9 +85,9 @@ def run(ctx):
     rng = vlib.Rng(ctx.seed)
     pc.regen_units(ctx, ['Bitops', 'Constexpr'])
     proved = ctx.prove(['Librfn.Props.C16'], REQUIRED, allow_extra_axioms=lambda t, a: '_native.bv_decide.ax' in a and t.startswith('Librfn.C16.'))
-    exe, fast = pc.build(ctx)
+    exe, fast = pc.build(ctx, 'PURE_BITS')
     calls = gen_inputs(rng, ctx.tier)
-    c_out, lean_out = pc.differential(ctx, exe, [f'{op} {x}' for op, x in calls])
+    c_out, lean_out = pc.differential(ctx, exe, [f'{op} {x}' for op, x in calls], 'pure-bits')
     tv_bad = 0
     for i, (op, x) in enumerate(calls):
         got = c_out[i] if i < len(c_out) else 'missing'
@@ -169,7 +169,7 @@ def replay(ctx, path):
     if not m:
         print('replay names a broken obligation, not an input:', r.get('obligation')); return 1
     op, x = m.group(1), int(m.group(2), 0)
-    exe, _ = pc.build(ctx)
+    exe, _ = pc.build(ctx, 'PURE_BITS')
     rc, out, err = vlib.sh([exe, 'lines'], input=f'{op} {x}\n')
     print(f'{op}({x:#x}) = {out.strip()} expected {ref(op, x)}')
     return 0 if out.strip() == str(ref(op, x)) else 1
